@@ -176,7 +176,7 @@ def r13_alloc_sites(text):
         if k == 'id' and t == 'vec' and i + 2 < len(toks) and toks[i + 1][1] == '!' and toks[i + 2][1] == '[':
             c = rsx.match_close(toks, i + 2)
             inner = text[toks[i + 2][3]:toks[c][2]]
-            m = re.match(r'\s*0u8\s*;(.*)$', inner, re.S)
+            m = re.match(r'\s*0(?:u8)?\s*;(.*)$', inner, re.S)
             if m:
                 edits.append((s, toks[c][3], 'vec_zeroed(%s)' % m.group(1).strip()))
     for s, e, rep in reversed(edits):
@@ -349,6 +349,11 @@ def parse_template(path, seen=None):
                         if not mm:
                             raise SystemExit('bad rewrite directive: ' + l2)
                         fn['rewrites'].append(dict(frm=mm.group(1).replace('\\"', '"'), to=mm.group(2).replace('\\"', '"'), optional=bool(mm.group(3))))
+                    elif kind == 'rewrite_call':
+                        mm = re.match(r'"((?:[^"\\]|\\.)*)"\s*=>\s*"((?:[^"\\]|\\.)*)"\s*(\?)?', rest)
+                        if not mm:
+                            raise SystemExit('bad rewrite_call directive: ' + l2)
+                        fn['rewrites'].append(dict(frm=mm.group(1).replace('\\"', '"'), to=mm.group(2).replace('\\"', '"'), optional=bool(mm.group(3)), call=True))
                     elif kind == 'params':
                         fn['params'] = [x.strip() for x in rest.split(',') if x.strip()]
                     elif kind == 'sig':
@@ -437,19 +442,90 @@ def extract_source(fn):
     return dict(sig=f['sig'], body=body, meta=meta, raw=raw)
 
 
+def drop_cfg_arms(body, feats):
+    """R9: remove match arms gated by `#[cfg(feature = "<f>")]` for the listed features (third-party codecs whose APIs are
+    not modelled); `#[cfg(feature = ..)]` attributes of the remaining arms are stripped so they are verified regardless of
+    the enabled features."""
+    n = 0
+    while True:
+        toks = rsx.sig_tokens(body)
+        hit = None
+        for i, t in enumerate(toks):
+            if t[1] == '#' and i + 1 < len(toks) and toks[i + 1][1] == '[':
+                c = rsx.match_close(toks, i + 1)
+                attr = body[t[2]:toks[c][3]]
+                m = re.match(r'#\[\s*cfg\s*\(\s*feature\s*=\s*"(\w+)"\s*\)\s*\]', attr)
+                if not m:
+                    continue
+                if m.group(1) in feats:
+                    # find `=>` then the arm body
+                    p = c + 1
+                    while not (toks[p][1] == '=' and toks[p + 1][1] == '>'):
+                        p += 1
+                    x = p + 2
+                    if toks[x][1] == '{':
+                        e = rsx.match_close(toks, x)
+                        end = toks[e][3]
+                        if e + 1 < len(toks) and toks[e + 1][1] == ',':
+                            end = toks[e + 1][3]
+                    else:
+                        y = x
+                        depth = 0
+                        while not (depth == 0 and toks[y][1] == ','):
+                            if toks[y][1] in '([{':
+                                depth += 1
+                            elif toks[y][1] in ')]}':
+                                depth -= 1
+                            y += 1
+                        end = toks[y][3]
+                    hit = (t[2], end)
+                else:
+                    hit = (t[2], toks[c][3])
+                break
+        if not hit:
+            return body, n
+        body = body[:hit[0]] + body[hit[1]:]
+        n += 1
+
+
 def apply_rewrites(fn, body, meta, truncate=True):
     log = []
-    for name, f in GLOBAL_REWRITES:
-        body, n = f(body)
+    if 'drop_cfg_arms' in fn['opts']:
+        body, n = drop_cfg_arms(body, fn['opts']['drop_cfg_arms'].split(','))
         if n:
-            log.append('%s x%d' % (name, n))
+            log.append('R9 cfg(feature) arms dropped/ungated (%s) x%d' % (fn['opts']['drop_cfg_arms'], n))
     for rw in fn['rewrites']:
         rx = re.compile(rsx.ws_insensitive_regex(rw['frm']))
-        body, n = rx.subn(lambda m: rw['to'], body)
+        if rw.get('call'):
+            # replace from the anchor (which ends with an opening parenthesis) through its matching close
+            m = rx.search(body)
+            n = 0
+            if m:
+                depth = 0
+                j = m.start() + body[m.start():m.end()].index('(')
+                toks = rsx.tokenize(body[j:])
+                end = None
+                for k, t, a, b in toks:
+                    if k == 'punct' and t in '([{':
+                        depth += 1
+                    elif k == 'punct' and t in ')]}':
+                        depth -= 1
+                        if depth == 0:
+                            end = j + b
+                            break
+                if end:
+                    body = body[:m.start()] + rw['to'] + body[end:]
+                    n = 1
+        else:
+            body, n = rx.subn(lambda m: rw['to'], body)
         if n == 0 and not rw['optional']:
             raise LostAnchor('%s: rewrite anchor not found: %r' % (fn['id'], rw['frm']))
         if n:
             log.append('per-fn rewrite %r => %r x%d' % (rw['frm'], rw['to'], n))
+    for name, f in GLOBAL_REWRITES:
+        body, n = f(body)
+        if n:
+            log.append('%s x%d' % (name, n))
     meta['rewrites'] = log
     return body
 
